@@ -703,13 +703,125 @@ impl Family for StmtLifecycles {
     }
 }
 
+/// Many *distinct* column lists on one connection, each declared again later: n distinct resultset
+/// headers (1-4 columns; every seventh through a PREPARE reply + EXECUTE, every eleventh preceded
+/// by a COM_FIELD_LIST), optionally behind one header with a 5000-byte column name, then the same n
+/// lists once more in another order. For bounded caches of encoded definitions (wrong once full
+/// or once they evict) and for per-connection counters of definition blocks. Every header of the
+/// session is compared with what was declared.
+struct ManyShapes {
+    ns: Vec<usize>,
+}
+impl ManyShapes {
+    fn shape(k: usize) -> Arc<Vec<Column>> {
+        let ncols = 1 + k % 4;
+        Arc::new(
+            (0..ncols)
+                .map(|c| Column {
+                    table: format!("t{}", k % 7),
+                    column: format!("s{}_c{}", k, c),
+                    coltype: [ColumnType::MYSQL_TYPE_LONG, ColumnType::MYSQL_TYPE_VAR_STRING, ColumnType::MYSQL_TYPE_DOUBLE][(k + c) % 3],
+                    colflags: if (k + c) % 5 == 0 { ColumnFlags::UNSIGNED_FLAG } else { ColumnFlags::empty() },
+                })
+                .collect(),
+        )
+    }
+    fn case(&self, idx: u64) -> (usize, bool) {
+        (self.ns[(idx / 2) as usize], idx % 2 == 1)
+    }
+}
+impl Family for ManyShapes {
+    fn name(&self) -> String {
+        "many-distinct-column-lists-then-each-again".into()
+    }
+    fn len(&self) -> u64 {
+        self.ns.len() as u64 * 2
+    }
+    fn run(&self, idx: u64, st: &mut Stats) -> Result<(), Violation> {
+        let (n, long_first) = self.case(idx);
+        st.nontrivial += 1;
+        st.bump("many_shapes");
+        // the order of declarations: 0..n, then a stride walk over the same n lists
+        let stride = [1usize, 3, 5, 7, 11, 13].iter().copied().find(|s| n % s != 0).unwrap_or(1);
+        let mut order: Vec<usize> = (0..n).collect();
+        order.extend((0..n).map(|i| (i * stride + 1) % n));
+        let long_cols = Arc::new(vec![Column { table: "t0".into(), column: "L".repeat(5000), coltype: ColumnType::MYSQL_TYPE_LONG, colflags: ColumnFlags::empty() }]);
+        let mut cmds = vec![ClientCmd::new(with_byte(COM_STMT_PREPARE, b"first"))];
+        let mut behaviours: Vec<Behavior> = vec![Behavior::PrepReply { id: 9, params: param_palette()[0].clone(), cols: Self::shape(0) }];
+        // (reply index, expected list, via PREPARE reply?)
+        let mut want: Vec<(usize, Arc<Vec<Column>>, bool)> = Vec::new();
+        if long_first {
+            want.push((cmds.len(), long_cols.clone(), false));
+            cmds.push(q(b"long"));
+            behaviours.push(Behavior::Prog(Arc::new(vec![WOp::Start(long_cols.clone()), WOp::Finish])));
+        }
+        for (j, k) in order.iter().enumerate() {
+            let cols = Self::shape(*k);
+            if j % 11 == 10 {
+                cmds.push(ClientCmd::new(with_byte(COM_FIELD_LIST, b"t\0")));
+            }
+            if j % 7 == 6 {
+                want.push((cmds.len(), cols.clone(), true));
+                cmds.push(ClientCmd::new(with_byte(COM_STMT_PREPARE, b"again")));
+                behaviours.push(Behavior::PrepReply { id: 9, params: param_palette()[1].clone(), cols: cols.clone() });
+                want.push((cmds.len(), cols.clone(), false));
+                cmds.push(ClientCmd::new(cmd_execute(9, 0, 1, &exec_block(&[ExecParam { ty: 0xfd, unsigned: false, wire: Some(vec![1, b'v']), long: false }], true))));
+                behaviours.push(Behavior::Prog(Arc::new(vec![WOp::Start(cols), WOp::Finish])));
+            } else {
+                want.push((cmds.len(), cols.clone(), false));
+                cmds.push(q(b"rs"));
+                behaviours.push(Behavior::Prog(Arc::new(vec![WOp::Start(cols), WOp::Finish])));
+            }
+        }
+        cmds.push(ping());
+        let conv = Conv::new(cmds);
+        let s = conv.stream();
+        let stream = Arc::new(s.bytes);
+        let mut sim = sim_for(&stream, vec![]);
+        sim.log_ops = false;
+        let mut k = 0usize;
+        let bh = behaviours.clone();
+        let behave = Box::new(move |_: usize, cb: &Cb| match cb {
+            Cb::Prepare(_) | Cb::Query(_) | Cb::Execute { .. } => {
+                let b = bh[k].clone();
+                k += 1;
+                b
+            }
+            _ => Behavior::Silent,
+        });
+        let o = run_conn(sim, ConnCfg::new(behave));
+        st.transitions += want.len() as u64;
+        let tag = |e: String| format!("{} distinct column lists{}: {}", n, if long_first { " behind a 5000-byte column name" } else { "" }, e);
+        if let ConnResult::Panic(l, m) = &o.res {
+            return Err(Violation::new(panic_key(l, m), tag(format!("run_on panicked at {}: {}", l, m))));
+        }
+        if !o.res.is_ok() {
+            return Err(Violation::new("result-not-ok", tag(format!("run_on returned {}", o.res.short()))));
+        }
+        let d = decode_all(delivered(&o), &conv, &s.last_seq, conv.cmds.len(), false).map_err(|e| Violation::new("reply-decode", tag(e)))?;
+        for (j, (ri, cols, prep)) in want.iter().enumerate() {
+            let what = tag(format!("declaration {} of {} (reply {})", j, want.len(), ri));
+            match (&d.replies[*ri][..], prep) {
+                ([Unit::PrepareOk { cols: gc, .. }], true) => check_defs(gc, cols, &what)?,
+                ([Unit::ResultSet { cols: gc, end: Ok(_), .. }], false) => check_defs(gc, cols, &what)?,
+                (other, _) => return Err(Violation::new("reply-shape", format!("{}: {} unit(s)", what, other.len()))),
+            }
+        }
+        Ok(())
+    }
+    fn describe(&self, idx: u64) -> J {
+        let (n, long_first) = self.case(idx);
+        json!({"distinct_column_lists": n, "each_declared_twice": true, "behind_a_5000_byte_column_name": long_first})
+    }
+}
+
 pub fn build(quick: bool) -> Check {
     let flags = flag_words();
     let nf = flags.len();
     Check {
         id: "C09",
         level: "model_checking",
-        rule: format!("column descriptors declared through start() and StatementMetaWriter::reply on the real run_on, decoded by refwire and by mysql_common's Column/StmtPacket: every column count 0..{} (and 65535 in thorough) with table names cycling A, tbl_b, A, \"\", multibyte; table/column name lengths {{0,1,250,251,252,65535,65536,70000}}^2 in ASCII and 2-byte UTF-8; lists of 70..4000 definitions totalling 100 KiB..400 KiB; all {} column types x all {} representable flag words; statement ids {{0,1,255,256,65535,65536,2^31,2^32-1}} x (parameters, columns) in {{0,1,2,250,251,1000}}^2. Histories: every sequence of <= 3 (thorough: 4) metadata-bearing exchanges on one connection over 40 events (text and binary resultset headers, chained headers, PREPARE replies reusing an id with other counts) built from 12 column lists that collide (same table+name concatenation split differently; lists differing only in flags, type, order or one name; the empty list); every sequence of <= 6 (thorough: 7) events over PREPARE (two ids, a re-prepare with another list), long data, EXECUTE answered with the declared or another list, CLOSE, COM_FIELD_LIST and a text resultset. Oracle: count, order, table, name, type, flags, id and both counts equal what was declared; EOF placement per the 4.1 protocol without DEPRECATE_EOF. Non-trivial = beyond the one-byte length class.", 1000, all_types().len(), nf),
+        rule: format!("column descriptors declared through start() and StatementMetaWriter::reply on the real run_on, decoded by refwire and by mysql_common's Column/StmtPacket: every column count 0..{} (and 65535 in thorough) with table names cycling A, tbl_b, A, \"\", multibyte; table/column name lengths {{0,1,250,251,252,65535,65536,70000}}^2 in ASCII and 2-byte UTF-8; lists of 70..4000 definitions totalling 100 KiB..400 KiB; all {} column types x all {} representable flag words; statement ids {{0,1,255,256,65535,65536,2^31,2^32-1}} x (parameters, columns) in {{0,1,2,250,251,1000}}^2. Histories: every sequence of <= 3 (thorough: 4) metadata-bearing exchanges on one connection over 40 events (text and binary resultset headers, chained headers, PREPARE replies reusing an id with other counts) built from 12 column lists that collide (same table+name concatenation split differently; lists differing only in flags, type, order or one name; the empty list); 17..2300 (thorough: ..66000) distinct column lists on one connection (plain, through PREPARE + EXECUTE, behind COM_FIELD_LIST, optionally behind a 5000-byte name), each declared a second time in another order; every sequence of <= 6 (thorough: 7) events over PREPARE (two ids, a re-prepare with another list), long data, EXECUTE answered with the declared or another list, CLOSE, COM_FIELD_LIST and a text resultset. Oracle: count, order, table, name, type, flags, id and both counts equal what was declared; EOF placement per the 4.1 protocol without DEPRECATE_EOF. Non-trivial = beyond the one-byte length class.", 1000, all_types().len(), nf),
         assumptions: vec!["ColumnFlags can only represent its defined bits; all representable words are covered".into()],
         bounds: json!({"max_columns": if quick {1000} else {65535}, "flag_words": nf}),
         exhaustive: true,
@@ -724,12 +836,13 @@ pub fn build(quick: bool) -> Check {
             Box::new(MetaHistories { evs: meta_events(), depth: 1 }),
             Box::new(MetaHistories { evs: meta_events(), depth: 2 }),
             Box::new(MetaHistories { evs: meta_events(), depth: if quick { 3 } else { 4 } }),
+            Box::new(ManyShapes { ns: if quick { vec![17, 127, 129, 257, 513, 2300] } else { vec![17, 127, 128, 129, 255, 256, 257, 511, 513, 1025, 2300, 4200, 33000, 66000] } }),
             Box::new(StmtLifecycles { depth: 3 }),
             Box::new(StmtLifecycles { depth: 4 }),
             Box::new(StmtLifecycles { depth: 5 }),
             Box::new(StmtLifecycles { depth: 6 }),
             Box::new(StmtLifecycles { depth: if quick { 2 } else { 7 } }),
         ],
-        required: vec!["aftermath_recovered", "metadata_histories", "statement_lifecycle_histories", "more_than_250_columns", "names_longer_than_250", "type_flag_pairs", "wide_statement_ids", "bulky_lists"],
+        required: vec!["aftermath_recovered", "many_shapes", "metadata_histories", "statement_lifecycle_histories", "more_than_250_columns", "names_longer_than_250", "type_flag_pairs", "wide_statement_ids", "bulky_lists"],
     }
 }
